@@ -480,6 +480,10 @@ def run(tier, procs=None, only=None):
     )
 
 
+# every real-library oracle of this property (each returns (reproduced, detail)); used to confirm structural facts that carry no replay of their own
+ALL_REPLAYS = [lambda c: replay_mask((3, 4, 5), [0.5, 0.5, 0.5, 0.5], 'y')(c), lambda c: replay_mask((4, 4, 4), [0, 0, 0, 1], 'x')(c), replay_union_iterable, replay_history]
+
+
 def replay(data):
     det = data.get("replay_detail") or {}
     key = data.get("key", "")
